@@ -169,7 +169,7 @@ impl Prop for C10 {
         vec!["executions always bind their types (after a re-prepare the protocol requires it), so stale bound types cannot be observed by a conforming client; stale long data and stale parameter counts are".into()]
     }
     fn cases(&self, tier: Tier) -> u64 {
-        tier.pick(40_000, 800_000)
+        tier.pick(600000, 5000000)
     }
     fn fuzz_plan(&self, tier: Tier) -> Vec<(&'static str, u64)> {
         if tier == Tier::Thorough {
